@@ -66,6 +66,7 @@ class Body:
         self._succ = [self._succs(i) for i in range(self.n)]
         self._pred = None
         self._defs = None
+        self._prune_literal_switches()
 
     # ---------------------------------------------------------------- CFG
     def term(self, bb):
@@ -96,6 +97,26 @@ class Body:
         if k in ("assert", "drop"):
             return [t["t"]]
         return []
+
+    def _prune_literal_switches(self):
+        """`if false && c` is built as `_t = const false; switchInt(move _t)`: when the switch operand is a plain local whose only
+        definition is a literal constant, only the matching edge is live"""
+        for i in range(self.n):
+            t = self.blocks[i]["t"]
+            if t["k"] != "switch" or t["o"][0] == "k" or len(t["o"][1]) != 1:
+                continue
+            ds = self.defs(t["o"][1][0])
+            if len(ds) != 1 or ds[0][1] != "=" or ds[0][2]["p"] != [t["o"][1][0]]:
+                continue
+            rv = ds[0][2]["rv"]
+            if rv["k"] != "use" or rv["o"][0] != "k" or rv["o"][1].get("v") is None or "def" in rv["o"][1]:
+                continue
+            lit = {"true": "1", "false": "0"}.get(str(rv["o"][1]["v"]), str(rv["o"][1]["v"]))
+            tgt = None
+            for v, b in t["ts"]:
+                if str(v) == lit:
+                    tgt = b
+            self._succ[i] = [tgt if tgt is not None else t["ow"]]
 
     def succs(self, bb):
         return self._succ[bb]
